@@ -300,36 +300,89 @@ theorem recRun_eq_interp (cfg : Cfg) : ∀ (rs : List Rec) (t : Tail) (rd : Read
 
 theorem empty_wf : Buffer.empty.wf := by simp [Buffer.wf, Buffer.len, Buffer.empty]
 
-/-- **Main equivalence.**  For every callback that still holds header + stream (whatever read
-sizes it is going to return, whether or not it reports EOF the way `file.rs` does), the buffered
-reader produces exactly the reference output `runWhole cfg s`. -/
-theorem runCb_eq_runWhole (cfg : Cfg) (hdr s : List UInt8) (c : Cb) (hc : c.rem = hdr ++ s) :
-    runCb cfg hdr.length c = runWhole cfg s := by
-  unfold runCb
-  obtain ⟨hok, _, _⟩ := parseLoop_spec (good_pHeader hdr.length) (c.measure + 1) Buffer.empty c empty_wf (by omega)
-  have hph : pHeader hdr.length (logical Buffer.empty c) = .ok () s := by
-    simp [pHeader, logical, Buffer.empty, hc]
-  obtain ⟨b', c', hpl, hl', hw'⟩ := hok () s hph
-  rw [hpl]
-  simp only
-  rw [runItems_eq_recRun cfg _ _ _ _ hw', hl']
-  have hview : viewOf cfg.hasEx Reader.empty s = recsOf cfg.hasEx s := rfl
-  rw [hview]
-  unfold runWhole
-  have hlen := parseAll_length cfg.hasEx (s.length + 1) s
-  exact recRun_eq_interp cfg (recsOf cfg.hasEx s).1 (recsOf cfg.hasEx s).2 Reader.empty
-    (readFuel c.rem.length) rfl (by
-      show 4 * (parseAll cfg.hasEx (s.length + 1) s).1.length + 4 ≤ 4 * c.rem.length + 8
-      rw [hc]; simp only [List.length_append]; omega)
+/-- **Main equivalence.**  For every callback — whatever read sizes it is going to return, whether
+or not it reports EOF the way `file.rs` does — the buffered reader (`Reader::new`, then `read` until
+the end) produces exactly the reference output for the bytes the callback holds, header framing
+included.  The only other possibility is that the callback fails; then the final result is the
+callback error and the items read before it are a prefix of the reference items. -/
+theorem runCb_vs_reference (env : Env) (c : Cb) :
+    runCb env c = reference env c.rem ∨
+    ((runCb env c).final = .cbErr ∧ ¬ c.noFail ∧ (runCb env c).items <+: (reference env c.rem).items) := by
+  unfold runCb reference
+  have hnf0 := parseLoop_noFail (pHeader env.json) (c.measure + 1) Buffer.empty c empty_wf
+  have hlog : logical Buffer.empty c = c.rem := by simp [logical, Buffer.empty]
+  rcases parseLoop_spec (good_pHeader env.json) (c.measure + 1) Buffer.empty c empty_wf (by omega) with hcb | ⟨hok, herr, hnm⟩
+  · right
+    rw [hcb]
+    exact ⟨by trivial, fun h => (hnf0 h).1 hcb, List.nil_prefix⟩
+  · rw [hlog] at hok herr hnm
+    cases hp : pHeader env.json c.rem with
+    | needMore => left; rw [hnm hp]
+    | err e => left; rw [herr e hp]
+    | ok hr rest =>
+      obtain ⟨b', c', hpl, hl', hw'⟩ := hok hr rest hp
+      rw [hpl]
+      cases hr with
+      | bad e => left; rfl
+      | version v =>
+        simp only
+        cases hcfg : env.cfgOf v with
+        | none => left; rfl
+        | some cfg =>
+          simp only
+          have hlen : rest.length ≤ c.rem.length := (good_pHeader env.json).rest_le hp
+          have hrec : recRun cfg (readFuel c.rem.length) Reader.empty (viewOf cfg.hasEx Reader.empty (logical b' c')) =
+              runWhole cfg rest := by
+            rw [hl']
+            have hview : viewOf cfg.hasEx Reader.empty rest = recsOf cfg.hasEx rest := rfl
+            rw [hview]
+            unfold runWhole
+            have hl2 := parseAll_length cfg.hasEx (rest.length + 1) rest
+            exact recRun_eq_interp cfg (recsOf cfg.hasEx rest).1 (recsOf cfg.hasEx rest).2 Reader.empty
+              (readFuel c.rem.length) rfl (by
+                show 4 * (parseAll cfg.hasEx (rest.length + 1) rest).1.length + 4 ≤ 4 * c.rem.length + 8
+                omega)
+          rcases runItems_vs_recRun cfg (readFuel c.rem.length) Reader.empty b' c' hw' with heq | ⟨hf, hn, hpre⟩
+          · left; rw [heq, hrec]
+          · right
+            refine ⟨hf, fun h => hn ((hnf0 h).2 _ _ _ hpl), ?_⟩
+            rw [← hrec]; exact hpre
 
-theorem run_eq_runWhole (cfg : Cfg) (hdr s : List UInt8) (ds : List Nat) :
-    run cfg hdr.length (hdr ++ s) ds = runWhole cfg s :=
-  runCb_eq_runWhole cfg hdr s _ rfl
+theorem runCb_eq_reference (env : Env) (c : Cb) (hnf : c.noFail) : runCb env c = reference env c.rem := by
+  rcases runCb_vs_reference env c with h | ⟨_, hn, _⟩
+  · exact h
+  · exact absurd hnf hn
+
+/-- `hdr` is a complete header (magic, NUL-terminated text the content parser accepts) of a
+supported version, giving the reader configuration `cfg`. -/
+def HeaderOk (env : Env) (hdr : List UInt8) (cfg : Cfg) : Prop :=
+  ∃ v, pHeader env.json hdr = .ok (.version v) [] ∧ env.cfgOf v = some cfg
+
+theorem reference_of_headerOk {env : Env} {hdr : List UInt8} {cfg : Cfg} (h : HeaderOk env hdr cfg)
+    (s : List UInt8) : reference env (hdr ++ s) = runWhole cfg s := by
+  obtain ⟨v, hp, hc⟩ := h
+  have := ((good_pHeader env.json hdr).1 _ _ hp).2 s
+  unfold reference
+  rw [this]
+  simp only [List.nil_append, hc]
+
+theorem noFail_sizes (total : List UInt8) (ds : List Nat) (strict : Bool) :
+    ({ rem := total, ds := ds.map CbEv.size, strictEof := strict } : Cb).noFail := by
+  simp [Cb.noFail]
+
+theorem run_eq_runWhole {env : Env} {hdr : List UInt8} {cfg : Cfg} (h : HeaderOk env hdr cfg)
+    (s : List UInt8) (ds : List Nat) : run env (hdr ++ s) ds = runWhole cfg s := by
+  unfold run
+  rw [runCb_eq_reference env _ (noFail_sizes _ _ _)]
+  exact reference_of_headerOk h s
+
+theorem noFail_ofChunks (cs : List (List UInt8)) : (Cb.ofChunks cs).noFail := by
+  simp [Cb.noFail, Cb.ofChunks]
 
 /-- A callback built from an explicit chunk list hands out exactly those chunks, as long as each
 fits into the buffer space it is offered (which the callback contract demands), then EOF. -/
 theorem ofChunks_read_fits (ch : List UInt8) (cs : List (List UInt8)) (space : Nat) (h : ch.length ≤ space) :
-    (Cb.ofChunks (ch :: cs)).read space = (some ch, Cb.ofChunks cs) := by
+    (Cb.ofChunks (ch :: cs)).read space = .data ch (Cb.ofChunks cs) := by
   have hn : min ch.length (min space (ch ++ cs.flatten).length) = ch.length := by
     simp only [List.length_append]; omega
   have ht : (ch ++ cs.flatten).take ch.length = ch := by
@@ -339,7 +392,7 @@ theorem ofChunks_read_fits (ch : List UInt8) (cs : List (List UInt8)) (space : N
   simp only [Cb.ofChunks, Cb.read, List.map_cons, List.flatten_cons, hn, ht, hd]
   simp
 
-theorem ofChunks_read_eof (space : Nat) : (Cb.ofChunks []).read space = (none, Cb.ofChunks []) := by
+theorem ofChunks_read_eof (space : Nat) : (Cb.ofChunks []).read space = .eof := by
   simp [Cb.ofChunks, Cb.read]
 
 end Tw.Teehistorian
